@@ -243,6 +243,9 @@ func runImpl(in *c08In) c08Out {
 			w.kill()
 			theWorker = nil
 			first := strings.SplitN(w.errb.String(), "\n", 2)[0]
+			if i := strings.Index(first, "out of memory"); i >= 0 { // the byte counts that follow vary from run to run
+				first = first[:i+len("out of memory")]
+			}
 			return c08Out{Outcome: "panic", Note: "worker died: " + first}
 		}
 		var r wResp
